@@ -13,6 +13,7 @@ mod scen_dns;
 mod scen_inject;
 mod scen_neigh;
 mod scen_peer;
+mod scen_raw;
 mod scen_slaac;
 mod scen_tcp;
 mod tap;
@@ -79,6 +80,10 @@ fn neigh_scn(t: &mut Tape, p: Props, thorough: bool, trace: bool) -> Outcome {
 
 fn slaac_scn(t: &mut Tape, p: Props, thorough: bool, trace: bool) -> Outcome {
     scen_slaac::run(t, p, thorough, trace)
+}
+
+fn raw_scn(t: &mut Tape, p: Props, thorough: bool, trace: bool) -> Outcome {
+    scen_raw::run(t, p, thorough, trace)
 }
 
 fn dhcp_scn(t: &mut Tape, p: Props, thorough: bool, trace: bool) -> Outcome {
@@ -176,7 +181,7 @@ fn defs() -> &'static [CheckDef] {
             CheckDef {
                 id: "C09",
                 props: Props::of(&["C09"]),
-                scens: vec![Scen { name: "dgram-pair-exact", weight: 2, run: dgram_exact }, Scen { name: "dgram-pair-sloppy", weight: 2, run: dgram_sloppy }, Scen { name: "dgram-pair-frag", weight: 1, run: dgram_frag }],
+                scens: vec![Scen { name: "dgram-pair-exact", weight: 2, run: dgram_exact }, Scen { name: "dgram-pair-sloppy", weight: 2, run: dgram_sloppy }, Scen { name: "dgram-pair-frag", weight: 1, run: dgram_frag }, Scen { name: "raw-pair", weight: 1, run: raw_scn }],
                 rule: "one run = two real nodes with UDP and ICMP sockets (metadata rings 1-8 slots, payload rings 16-8192 bytes) exchanging tape-chosen datagrams over a faulty link with neighbour-resolution delays and device back-pressure; FIFO reference model per socket; non-trivial = a fault fired AND >= 3 datagrams delivered; distinct = event-log hash",
                 assumptions: vec!["raw sockets are not yet part of the workload", "exactly-once is judged at quiescence (no frame in flight, no deadline) after faults stopped"],
                 real: REAL,
